@@ -742,9 +742,11 @@ pub fn run_sched_case(case: &SchedCase, prop: &str, trace: bool) -> SchedRun {
     }
     if prop == "C04" {
         if let (Some(c), WeigherKind::None) = (case.cfg.cap, case.cfg.weigher) {
-            let bound = c as usize + 384 + case.threads.len();
+            // (the size of the write queue is the implementation's choice: it is read, not assumed)
+            let wq = cache.verif_write_queue_capacity();
+            let bound = (c as usize).saturating_add(wq).saturating_add(case.threads.len());
             if stats.max_map_len > bound {
-                mkret!(Violation { prop: "C04", step: stats.steps as usize, msg: format!("between maintenance runs the cache held {} entries: more than max_capacity {c} + the write queue (384) + one per inserting thread ({}) = {bound}", stats.max_map_len, case.threads.len()) });
+                mkret!(Violation { prop: "C04", step: stats.steps as usize, msg: format!("between maintenance runs the cache held {} entries: more than max_capacity {c} + the write queue ({wq}) + one per inserting thread ({}) = {bound}", stats.max_map_len, case.threads.len()) });
             }
         }
         if let Some(c) = case.cfg.cap {
@@ -1134,6 +1136,7 @@ fn litmus() -> Vec<(&'static str, SchedCase)> {
         ("insert; sync || 100 gets; insert (read queue beyond its flush point)", SchedCase { cfg: base(Some(2), None), init: vec![ins(0, 1), TOp::Sync], threads: vec![vec![ins(1, 1), TOp::Sync], vec![TOp::Gets { k: 0, n: 100 }, ins(0, 1)]], preempt: vec![], first: 0, patience: 0 }),
         ("insert; sync || 400 gets (read queue full)", SchedCase { cfg: base(Some(2), None), init: vec![ins(0, 1), TOp::Sync], threads: vec![vec![ins(1, 1), TOp::Sync], vec![TOp::Gets { k: 0, n: 400 }, get(0)]], preempt: vec![], first: 0, patience: 0 }),
         ("insert; sync || 400 inserts of fresh keys; update; get (write queue full)", SchedCase { cfg: base(None, None), init: vec![ins(0, 1), TOp::Sync], threads: vec![vec![ins(1, 1), TOp::Sync], vec![TOp::Fill { n: 400 }, ins(0, 2), get(0)]], preempt: vec![], first: 0, patience: 0 }),
+        ("growing update; sync || update of one resident || update of the other (all nodes dirty during the eviction pass)", SchedCase { cfg: base(Some(2), None), init: vec![ins(0, 1), ins(1, 1), TOp::Sync], threads: vec![vec![ins(1, 3), TOp::Sync], vec![ins(0, 1)], vec![ins(1, 3)]], preempt: vec![], first: 0, patience: 0 }),
         ("invalidate_all || invalidate_all (clock advancing)", SchedCase { cfg: base(None, None), init: vec![ins(0, 1), TOp::Advance { ns: 1 }], threads: vec![vec![TOp::InvalidateAll], vec![TOp::Advance { ns: 1 }, ins(1, 1), TOp::Advance { ns: 1 }, TOp::InvalidateAll, get(1)]], preempt: vec![], first: 0, patience: 0 }),
     ]
 }
